@@ -274,13 +274,13 @@ def obligations(tier: str):
     for i, (pre, suf, k) in enumerate(NAME_CONTEXTS):
         if k == 3 and tier == "quick":
             continue
-        obls.append({"id": "names%02d.k%d" % (i, k), "func": "h_names", "params": {"prefix": pre, "suffix": suf, "k": k}, "timeout": t if k < 3 else 3000})
+        obls.append({"id": "names%02d.k%d" % (i, k), "func": "h_names", "params": {"prefix": pre, "suffix": suf, "k": k}, "timeout": t if k < 3 else 1200})
     for i, (pre, suf, k) in enumerate(RANGE_CONTEXTS):
         if k == 3 and tier == "quick":
             continue
         obls.append({"id": "range%02d.k%d" % (i, k), "func": "h_literal_range", "params": {"prefix": pre, "suffix": suf, "k": k}, "timeout": t})
     for ci in range(len(SINGULAR_CONTEXTS)):
-        obls.append({"id": "singular.ctx%d" % ci, "func": "h_singular", "params": {"context": ci, "maxseg": 2 if tier == "quick" else 3}, "timeout": t if tier == "quick" else 3000})
+        obls.append({"id": "singular.ctx%d" % ci, "func": "h_singular", "params": {"context": ci, "maxseg": 2 if tier == "quick" else 3}, "timeout": t if tier == "quick" else 1200})
     for form in (1, 2, 3, 4, 5, 6, 7, 8):
         obls.append({"id": "custom_range.form%d" % form, "func": "h_custom_range", "params": {"form": form}, "timeout": t})
     obls.append({"id": "smt.b2_guards", "kind": "smt", "func": "b2_guards", "timeout": 120})
